@@ -16,7 +16,7 @@ def fixes():
 
 
 def run(tier, seed):
-    limit = 2500 if tier == 'quick' else 20000
+    limit = 10000 if tier == 'quick' else 20000
     return scope_check.run_check(tier, seed, fixes(), limit)
 
 
